@@ -343,13 +343,16 @@ def SymTyp.st : SymTyp → Nat
   | .object => 1
   | .other => 0
 
+/-- the `SymbolTableEntry` object built for one symbol (`st_other` stays 0) -/
+def symHdr (nm : Nat) (g : Bool) (t : SymTyp) (shndx value size : Nat) : Hdr :=
+  [(.st_name, nm), (.st_info, (((if g then 1 else 0) * 16 + t.st : Nat) : Int)), (.st_shndx, shndx), (.st_value, value),
+   (.st_size, size)]
+
 /-- the loop body of `write_symbol_table` for one symbol -/
 def St.writeSymbol (q : Quirks) (L : Layouts) (o : Obj) (s : St) (nr : Nat) (sy : Sym) : Except Err St :=
   let s := { s with symIds := (sy.id, nr) :: s.symIds }
-  let bind := if sy.isGlobal then 1 else 0
   let (s, nm) := s.getString sy.name
-  let info := bind * 16 + sy.typ.st
-  let place : Except Err (Int × Int) :=
+  let place : Except Err (Nat × Nat) :=
     match sy.value with
     | none => .ok (0, 0)
     | some v =>
@@ -365,9 +368,7 @@ def St.writeSymbol (q : Quirks) (L : Layouts) (o : Obj) (s : St) (nr : Nat) (sy 
   match place with
   | .error e => .error e
   | .ok (shndx, value) =>
-    let h : Hdr := [(.st_name, nm), (.st_info, info), (.st_shndx, shndx), (.st_value, value),
-                    (.st_size, sy.size)]
-    match serialize L.sym h with
+    match serialize L.sym (symHdr nm sy.isGlobal sy.typ shndx value sy.size) with
     | .error e => .error e
     | .ok bs => .ok (s.write bs)
 
@@ -425,6 +426,13 @@ def insertName (n : List Nat) : List (List Nat) → List (List Nat)
 def relocSectionNames (rels : List Rel) : List (List Nat) :=
   rels.foldl (fun acc r => insertName r.sect acc) []
 
+/-- the `RelocationTableEntry` object built for one relocation: `r_info = (r_sym << 32) + r_type` (64 bit),
+    `(r_sym << 8) + r_type` (32 bit) -/
+def relaHdr (c : Cls) (off rsym rtype : Nat) (add : Int) : Hdr :=
+  [(.r_offset, off), (.r_info, match c with
+      | .c64 => (rsym : Int) * 4294967296 + rtype
+      | .c32 => (rsym : Int) * 256 + rtype), (.r_addend, add)]
+
 /-- one relocation entry -/
 def St.writeRela (L : Layouts) (c : Cls) (s : St) (r : Rel) : Except Err St :=
   match assocN r.symbolId s.symIds with
@@ -434,11 +442,7 @@ def St.writeRela (L : Layouts) (c : Cls) (s : St) (r : Rel) : Except Err St :=
     | .notImplemented => .error .NotImplementedError
     | .keyError => .error .KeyError
     | .ok rtype =>
-      let info : Int := match c with
-        | .c64 => (rsym : Int) * 4294967296 + rtype
-        | .c32 => (rsym : Int) * 256 + rtype
-      let h : Hdr := [(.r_offset, r.offset), (.r_info, info), (.r_addend, r.addend)]
-      match serialize L.rela h with
+      match serialize L.rela (relaHdr c r.offset rsym rtype r.addend) with
       | .error e => .error e
       | .ok bs => .ok (s.write bs)
 
